@@ -105,6 +105,13 @@ def check_epoch_df(case, rec):
         if c['method'] == 'amp':
             pipeline.trusted_burst_mask(c, x)
         flat = pipeline.analyse(c, x, return_samples=True)
+    n_rows = len(flat)
+    kind = case.get('index', 'range')
+    if kind == 'offset':                   # e.g. the table after limit_df, which keeps the original labels
+        flat.index = pd.RangeIndex(7, 7 + n_rows)
+    elif kind == 'repeated':
+        h = (n_rows + 1) // 2
+        flat.index = pd.Index(list(range(h)) + list(range(n_rows - h)))
     nm = ref.names(ref.table_center(flat))
     closing = flat[nm['next']].values.astype(int)
     periods = flat['period'].values
@@ -122,7 +129,7 @@ def check_epoch_df(case, rec):
     if not ok:
         raise Violation('epoch_df:input-modified', why)
     coincide, empty, spanning, _ = partition_check('epoch_df', keep, epochs, L, sig_len, nm)
-    rec.label('table:' + case['table']['kind'], 'center:' + ref.table_center(flat), 'epoch:' + case['epoch'][0],
+    rec.label('index:' + kind, 'table:' + case['table']['kind'], 'center:' + ref.table_center(flat), 'epoch:' + case['epoch'][0],
               'boundary-coincidence' if coincide else 'no-coincidence', 'empty-epoch' if empty else 'no-empty-epoch',
               'burst-spans-boundary' if spanning else 'no-spanning-burst', 'sig_len:' + case['sig_len'][0])
     rec.nontrivial(coincide or empty or spanning)
@@ -136,7 +143,7 @@ def strat_epoch_df(draw, tier):
         table = {'kind': 'real', 'case': c}
     else:
         table = {'kind': 'synthetic', 'recipe': draw(gen_tables.st_table_recipe()), 'method': draw(st.sampled_from(['cycles', 'amp']))}
-    return {'table': table,
+    return {'table': table, 'index': draw(st.sampled_from(['range', 'range', 'offset', 'repeated'])),
             'epoch': [draw(st.sampled_from(['coincide', 'coincide', 'short', 'arbitrary'])), draw(st.integers(0, 500)), draw(st.integers(0, 5))],
             'sig_len': [draw(st.sampled_from(['multiple', 'multiple', 'arbitrary'])), draw(st.integers(0, 100))]}
 
